@@ -1,4 +1,5 @@
 import BstreamVerif.Lemmas.StepCheckSound
+import BstreamVerif.Lemmas.Complete
 /-!
 # C03 — the stream follows the chain head and the chain's declared finality
 
@@ -7,7 +8,8 @@ import BstreamVerif.Lemmas.StepCheckSound
 (a longest chain is found) and triggers (higher than the previous tip, or any height in all-blocks-trigger mode);
 otherwise nothing is delivered and the tip is unchanged. Same hypotheses as C01's step theorem.
 `lib_follows_declared`: the LIB moves to the ancestor of the tip at the tip's declared LIB number.
-The "consequently" clause (independence of retention / re-fed blocks) is checked by the twin-run monitors.
+`outputs_ignore_refed_and_below_lib_blocks`: removing re-fed and below-LIB blocks from a history changes nothing.
+Independence of the retention setting is checked by the twin-run monitors.
 -/
 namespace BstreamVerif.Props.C03
 open BstreamVerif BstreamVerif.Forkable BstreamVerif.ForkDB
@@ -78,5 +80,209 @@ theorem lib_follows_declared (db : DB) (tip : Blk) (h : (db.blockInChain tip.ref
   · simp only [hs, if_true]; exact beq_iff_eq.mp hs
   · simp only [hs, Bool.false_eq_true, if_false] at h ⊢
     exact blockInChainAux_num db _ _ _ _ h
+
+/-! ### the head is actually followed (the direction a stream that never moves would fail) -/
+
+/-- **a fresh block that links back to the LIB through blocks already received, is not below the LIB and triggers,
+    becomes the tip**: `ids` is any parent-linked path of stored blocks resting on the LIB whose top is the block's
+    parent (the empty path when the parent is the LIB itself). With `tip_rule` this makes the first sentence of C03 an
+    equivalence stated on the block tree, not on what the walk happened to return: `ReversibleSegment` is complete
+    (`Lemmas/Complete.reversibleSegment_complete`). -/
+theorem tip_moves_when_linked (cfg : Config) (hnew : cfg.matches .new = true) (hundo : cfg.matches .undo = true)
+    (hirr : cfg.matches .irreversible = true) (s : FState) (P : List Id) (b : Blk)
+    (hI : Inv s P) (hok : Props.C01.StepOK s b) (hinit : InitNumOK s.db)
+    (hfresh : s.db.find b.id = none) (hnb : ¬ (b.num < s.db.libRef.num ∧ s.lastSent.isSome = true))
+    (ids : List Id) (hp : IsPath s.db s.db.libRef.id ids) (hn : s.db.libRef.id ∉ ids)
+    (hpar : b.parent = topOf s.db.libRef.id ids) (htr : triggers cfg s b = true) :
+    ∃ l, (processBlock cfg s b none).1.lastSent = some l ∧ l.ref = b.ref := by
+  obtain ⟨_, _, _, _, _, _, hmv⟩ :=
+    processBlock_step cfg hnew hundo hirr s P b hI hok.1 hok.2.1 hok.2.2.1 hok.2.2.2.1 hok.2.2.2.2
+  have hb := hok.2.2.1
+  have hB := hok.2.2.2.1
+  apply hmv hfresh hnb htr
+  rcases computeLongestChain_cases cfg { s with db := appendBlk s.db b } b with ⟨c, cs, _, _, _, hres⟩ | hres
+  · exact ⟨c, cs ++ [⟨b, false⟩], by rw [hres]; rfl⟩
+  · rw [hres]
+    have hself := find_append_self s.db b hfresh
+    -- the new block is not the LIB: it would sit at the LIB's height while resting on a descendant of the LIB
+    have hbl : b.id ≠ s.db.libRef.id := by
+      intro hlb
+      have h3 := hB.2.2.2 hlb
+      rcases List.eq_nil_or_concat ids with hnil | ⟨ids0, x, hx⟩
+      · subst hnil
+        have := hB.2.2.1 (by simpa using hpar)
+        omega
+      · rw [List.concat_eq_append] at hx
+        subst hx
+        simp only [topOf_append_singleton] at hpar
+        cases hfx : s.db.find x with
+        | none =>
+          have := isPath_present s.db _ _ hp x (by simp)
+          rw [hfx] at this; cases this
+        | some ep =>
+          have h1 := heights_path s.db hI.heights _ s.db.libRef.num _ hp hI.heights.2.1 x (by simp) ep hfx
+          have h2 := hB.1 ep (find_mem _ _ _ hfx) (by rw [hpar, find_id _ _ _ hfx])
+          omega
+    have hpath : IsPath (appendBlk s.db b) (appendBlk s.db b).libRef.id (ids ++ [b.id]) := by
+      show IsPath (appendBlk s.db b) s.db.libRef.id (ids ++ [b.id])
+      rw [isPath_append]
+      refine ⟨isPath_append_entry s.db b _ _ hp hfresh, ?_⟩
+      simp only [IsPath, and_true]
+      refine ⟨?_, by unfold appendBlk; rw [hself]; rfl⟩
+      unfold DB.link appendBlk; rw [hself]; exact hpar
+    have hnot : (appendBlk s.db b).libRef.id ∉ ids ++ [b.id] := by
+      show s.db.libRef.id ∉ ids ++ [b.id]
+      simp only [List.mem_append, List.mem_singleton, not_or]
+      exact ⟨hn, fun h => hbl h.symm⟩
+    obtain ⟨l, h1, h2⟩ := reversibleSegment_complete (appendBlk s.db b) (heights_append s.db b hI.heights hb hB)
+      (by intro i n hin hid; exact hinit i n hin hid) cfg.fsb (ids ++ [b.id]) hpath hnot b.ref
+      (by simp [Blk.ref]) (by
+        show b.num = (appendBlk s.db b).numOf b.id
+        rw [numOf_of_find _ _ _ (show (appendBlk s.db b).find b.id = some ⟨b, false⟩ from hself)])
+    show ∃ c cs, ((appendBlk s.db b).reversibleSegment cfg.fsb b.ref).1 = some (c :: cs)
+    rw [h1]
+    cases l with
+    | nil => simp at h2
+    | cons c cs => exact ⟨c, cs, rfl⟩
+
+/-- the forkable's initial buffer satisfies `InitNumOK` -/
+theorem initNumOK_init (cfg : Config) : InitNumOK (init cfg).db := by
+  unfold init
+  cases cfg.root with
+  | none => intro i n h; simp [DB.empty] at h
+  | some r =>
+    cases r with
+    | exclusive r => intro i n h _; simp only [DB.initLIB, Option.some.injEq, Prod.mk.injEq] at h; exact h.2.symm
+    | inclusive r => intro i n h _; simp only [DB.initLIB, Option.some.injEq, Prod.mk.injEq] at h; exact h.2.symm
+
+/-- one `ProcessBlock` keeps it: the LIB reference moves only together with the purge that drops the extra entry -/
+theorem initNumOK_step (cfg : Config) (s : FState) (b : Blk) (s' : FState) (h : DbShape cfg s b s')
+    (hi : InitNumOK s.db) : InitNumOK s'.db := by
+  rcases h with ⟨h, _⟩ | ⟨_, db2, hsb, h | ⟨R, er, h, _⟩⟩
+  · rw [h]; exact hi
+  · rw [h]
+    intro i n hin hid
+    rw [hsb.2.2] at hin
+    rw [hsb.1] at hid ⊢
+    exact hi i n hin hid
+  · rw [h]; intro i n hin; simp [DB.purgeBeforeLIB] at hin
+
+theorem libHistOK_append (cfg : Config) (s : FState) (pre : List Blk) (b : Blk)
+    (h : Props.C01.LibHistOK cfg s (pre ++ [b])) :
+    Props.C01.LibHistOK cfg s pre ∧ LibDeclOK (runHistory cfg s pre).1.db b := by
+  induction pre generalizing s with
+  | nil => exact ⟨trivial, h.1⟩
+  | cons x r ih =>
+    obtain ⟨h1, h2⟩ := ih _ h.2
+    rw [Props.C01.runHistory_cons]
+    exact ⟨⟨h.1, h1⟩, h2⟩
+
+/-- the invariants and `InitNumOK` along a whole history of blocks of one consistent tree -/
+theorem history_invariants_initNum (cfg : Config) (hnew : cfg.matches .new = true) (hundo : cfg.matches .undo = true)
+    (hirr : cfg.matches .irreversible = true) (U : Id → Option Blk) (hU : UOK U) (h : List Blk) (F : List Id)
+    (s : FState) (P : List Id) (hI : Inv s P) (hJ : Inv2 U F s.db) (hin : ∀ b ∈ h, U b.id = some b)
+    (hL : Props.C01.LibHistOK cfg s h) (hincl : s.includeInit = false ∨ s.lastSent.isSome = true)
+    (hi : InitNumOK s.db) :
+    ∃ P' F', Inv (runHistory cfg s h).1 P' ∧ Inv2 U F' (runHistory cfg s h).1.db ∧
+      InitNumOK (runHistory cfg s h).1.db ∧
+      ((runHistory cfg s h).1.includeInit = false ∨ (runHistory cfg s h).1.lastSent.isSome = true) := by
+  induction h generalizing s P F with
+  | nil => exact ⟨P, F, hI, hJ, hi, hincl⟩
+  | cons b r ih =>
+    have hni : s.includeInit = false ∨ s.lastSent.isSome = true ∨ b.id ≠ s.db.libRef.id := by
+      rcases hincl with h | h
+      · exact Or.inl h
+      · exact Or.inr (Or.inl h)
+    have hbU := hin b (by simp)
+    obtain ⟨P1, F1, _, hI1, hJ1, htip⟩ :=
+      Props.C01.step_discipline_consistent cfg hnew hundo hirr U hU F s P b hI hJ hbU hL.1 hni
+    obtain ⟨_, _, _, _, _, hshape, _⟩ := processBlock_step cfg hnew hundo hirr s P b hI hni
+      (sentClosed_of_inv2 U F s.db hI.wf hI.heights hJ) (hU.wf b.id b hbU) (hb_of_inv2 U hU F s.db hJ b hbU) hL.1
+    have hi1 := initNumOK_step cfg s b _ hshape hi
+    rw [Props.C01.runHistory_cons]
+    exact ih F1 _ P1 hI1 hJ1 (fun x hx => hin x (by simp [hx])) hL.2
+      (by rcases hincl with h | h
+          · exact Or.inl (by rw [processBlock_includeInit]; exact h)
+          · rcases htip with ⟨_, hsame⟩ | hsome
+            · exact Or.inr (by rw [hsame]; exact h)
+            · exact Or.inr hsome) hi1
+
+/-- **the head is followed, along every history** (hypotheses on the input only: blocks of one consistent block tree in
+    any order, LIB declarations naming ancestors): after any prefix `pre` of the history, a block `b` that is new to
+    the stream, not below the LIB, whose parent is the top of a path of received blocks resting on the LIB, and that
+    triggers (higher than the tip, or any height in all-blocks-trigger mode) becomes the tip -/
+theorem history_tip_follows (cfg : Config) (hnew : cfg.matches .new = true) (hundo : cfg.matches .undo = true)
+    (hirr : cfg.matches .irreversible = true) (U : Id → Option Blk) (hU : UOK U) (pre : List Blk) (b : Blk)
+    (F : List Id) (s0 : FState) (P0 : List Id) (hI : Inv s0 P0) (hJ : Inv2 U F s0.db)
+    (hin : ∀ x ∈ pre ++ [b], U x.id = some x) (hL : Props.C01.LibHistOK cfg s0 (pre ++ [b]))
+    (hincl : s0.includeInit = false ∨ s0.lastSent.isSome = true) (hi : InitNumOK s0.db)
+    (hfresh : (runHistory cfg s0 pre).1.db.find b.id = none)
+    (hnb : ¬ (b.num < (runHistory cfg s0 pre).1.db.libRef.num ∧ (runHistory cfg s0 pre).1.lastSent.isSome = true))
+    (ids : List Id) (hp : IsPath (runHistory cfg s0 pre).1.db (runHistory cfg s0 pre).1.db.libRef.id ids)
+    (hn : (runHistory cfg s0 pre).1.db.libRef.id ∉ ids)
+    (hpar : b.parent = topOf (runHistory cfg s0 pre).1.db.libRef.id ids)
+    (htr : triggers cfg (runHistory cfg s0 pre).1 b = true) :
+    ∃ l, (runHistory cfg s0 (pre ++ [b])).1.lastSent = some l ∧ l.ref = b.ref := by
+  obtain ⟨hLpre, hLb⟩ := libHistOK_append cfg s0 pre b hL
+  obtain ⟨P1, F1, hI1, hJ1, hi1, hincl1⟩ := history_invariants_initNum cfg hnew hundo hirr U hU pre F s0 P0 hI hJ
+    (fun x hx => hin x (by simp [hx])) hLpre hincl hi
+  have hbU := hin b (by simp)
+  have hni : (runHistory cfg s0 pre).1.includeInit = false ∨ (runHistory cfg s0 pre).1.lastSent.isSome = true ∨
+      b.id ≠ (runHistory cfg s0 pre).1.db.libRef.id := by
+    rcases hincl1 with h | h
+    · exact Or.inl h
+    · exact Or.inr (Or.inl h)
+  have hok : Props.C01.StepOK (runHistory cfg s0 pre).1 b :=
+    ⟨hni, sentClosed_of_inv2 U F1 _ hI1.wf hI1.heights hJ1, hU.wf b.id b hbU, hb_of_inv2 U hU F1 _ hJ1 b hbU, hLb⟩
+  have := tip_moves_when_linked cfg hnew hundo hirr _ P1 b hI1 hok hi1 hfresh hnb ids hp hn hpar htr
+  have hsplit : (runHistory cfg s0 (pre ++ [b])).1 = (processBlock cfg (runHistory cfg s0 pre).1 b none).1 := by
+    unfold runHistory
+    rw [List.foldl_append]
+    rfl
+  rw [hsplit]; exact this
+
+/-! ### outputs do not depend on re-fed or below-LIB blocks -/
+
+/-- a block the forkable ignores in state `s`: below the LIB once the stream has started, or stored already -/
+def Ignored (s : FState) (b : Blk) : Prop :=
+  (b.num < s.db.libRef.num ∧ s.lastSent.isSome = true) ∨
+  ((b.id ≠ b.parent ∧ b.id ≠ "" ∧ s.db.link b.id ≠ "") ∧
+    (s.includeInit && s.lastSent.isNone && b.id == s.db.libRef.id) = false)
+
+/-- `Thinned cfg s h h'`: `h'` is the history `h` with some blocks removed, each of them ignored (re-fed or below the
+    LIB) in the state the forkable is in when it arrives -/
+inductive Thinned (cfg : Config) : FState → List Blk → List Blk → Prop
+  | nil (s : FState) : Thinned cfg s [] []
+  | keep (s : FState) (b : Blk) (r r' : List Blk) :
+      Thinned cfg (processBlock cfg s b none).1 r r' → Thinned cfg s (b :: r) (b :: r')
+  | drop (s : FState) (b : Blk) (r r' : List Blk) : Ignored s b → Thinned cfg s r r' → Thinned cfg s (b :: r) r'
+
+/-- **outputs do not depend on re-fed or below-LIB blocks**: whatever the history, the configuration and the state
+    the forkable starts from, removing any number of blocks that arrive a second time or below the LIB changes neither
+    the event stream nor the final state (no hypothesis on the blocks) -/
+theorem outputs_ignore_refed_and_below_lib_blocks (cfg : Config) (s : FState) (h h' : List Blk)
+    (ht : Thinned cfg s h h') : runHistory cfg s h = runHistory cfg s h' := by
+  induction ht with
+  | nil s => rfl
+  | keep s b r r' _ ih => rw [Props.C01.runHistory_cons, Props.C01.runHistory_cons, ih]
+  | drop s b r r' hig _ ih =>
+    obtain ⟨h1, h2⟩ := no_move cfg s b none hig
+    rw [Props.C01.runHistory_cons, h1, h2, ← ih]
+    rfl
+
+private def cfgN : Config := { root := some (.exclusive ⟨"r", 1⟩), hold := false, kept := 1, allTrigger := false, filter := 51, fsb := 0 }
+private def a2 : Blk := ⟨"a2", "r", 2, 1⟩
+private def a3 : Blk := ⟨"a3", "a2", 3, 1⟩
+private def a4 : Blk := ⟨"a4", "a3", 4, 2⟩
+private def a5 : Blk := ⟨"a5", "a4", 5, 3⟩
+private def z1 : Blk := ⟨"z1", "z0", 1, 1⟩
+
+/-- non-vacuity: a3 arrives twice, and z1 arrives below the LIB after the LIB moved to a3 -/
+example : Thinned cfgN (init cfgN) [a2, a3, a3, a4, a5, z1] [a2, a3, a4, a5] := by
+  apply Thinned.keep; apply Thinned.keep
+  apply Thinned.drop _ _ _ _ (Or.inr ⟨⟨by decide, by decide, by decide⟩, by decide⟩)
+  apply Thinned.keep; apply Thinned.keep
+  apply Thinned.drop _ _ _ _ (Or.inl ⟨by decide, by decide⟩)
+  exact Thinned.nil _
 
 end BstreamVerif.Props.C03
